@@ -484,3 +484,249 @@ Example three_views :
   Concrete.get_actions_checklist 4 seed 1 4 =
     [ActionRedemption; ActionDepositSweep; ActionMovedFundsSweep; ActionMovingFunds].
 Proof. vm_compute. repeat split. Qed.
+
+(* ------------------------------------------------------------------ *)
+(* call histories on ONE executor: no memory                          *)
+(* ------------------------------------------------------------------ *)
+
+Section ExecutorFacts.
+  Variable rngT : Type.
+  Variable mkrng : Z -> rngT.
+  Variable shuffle : rngT -> list N -> list N.
+  Variable heartbeat_of : rngT -> bool.
+
+  (* history independence: whatever the executor went through, its state is the operator list
+     it was created with and its answers are the pure function mapped over the history *)
+  Lemma run_history_is_map_sec (ops : list N) (h : list hentry) :
+    run_history rngT mkrng shuffle heartbeat_of ops h =
+      (ops, map (answer_of rngT mkrng shuffle heartbeat_of ops) h).
+  Proof.
+    induction h as [|e t IH]; cbn [run_history map]; [reflexivity|].
+    unfold exec_call. rewrite IH. reflexivity.
+  Qed.
+
+  Lemma answer_of_same_set (ops ops' : list N) (e e' : hentry) :
+    (forall l, Permutation (e_iter e l) l) -> (forall l, Permutation (e_iter e' l) l) ->
+    (forall x, In x ops <-> In x ops') ->
+    e_idx e = e_idx e' -> e_seed e = e_seed e' ->
+    answer_of rngT mkrng shuffle heartbeat_of ops e =
+    answer_of rngT mkrng shuffle heartbeat_of ops' e'.
+  Proof.
+    intros Hi Hi' Hset Eidx Eseed. unfold answer_of. rewrite Eidx, Eseed. f_equal.
+    apply leader_invariant_under_permutation_and_repetition; assumption.
+  Qed.
+End ExecutorFacts.
+
+Theorem run_history_is_map :
+  forall (rngT : Type) (mkrng : Z -> rngT) (shuffle : rngT -> list N -> list N)
+         (heartbeat_of : rngT -> bool) (ops : list N) (h : list hentry),
+    run_history rngT mkrng shuffle heartbeat_of ops h =
+      (ops, map (answer_of rngT mkrng shuffle heartbeat_of ops) h).
+Proof. exact run_history_is_map_sec. Qed.
+
+(* two members with the same SET of operators, each with ITS OWN history on its own executor
+   (any lengths, any earlier windows, any map iteration orders): whenever round i of the one
+   and round j of the other are for the same window index and seed, the answers are equal;
+   and the leader is one of the operators, the checklist of a valid window starts with
+   Redemption *)
+Theorem members_agree_whatever_their_histories :
+  forall (rngT : Type) (mkrng : Z -> rngT) (shuffle : rngT -> list N -> list N)
+         (heartbeat_of : rngT -> bool),
+    (forall g l, Permutation (shuffle g l) l) ->
+    forall (ops ops' : list N) (h h' : list hentry),
+      (forall x, In x ops <-> In x ops') ->
+      (forall e l, In e h -> Permutation (e_iter e l) l) ->
+      (forall e l, In e h' -> Permutation (e_iter e l) l) ->
+      forall i j e e',
+        nth_error h i = Some e -> nth_error h' j = Some e' ->
+        e_idx e = e_idx e' -> e_seed e = e_seed e' ->
+        exists a,
+          nth_error (snd (run_history rngT mkrng shuffle heartbeat_of ops h)) i = Some a /\
+          nth_error (snd (run_history rngT mkrng shuffle heartbeat_of ops' h')) j = Some a /\
+          (ops <> [] -> exists o, fst a = Leader o /\ In o ops /\ In o ops') /\
+          (e_idx e <> 0 -> exists rest, snd a = ActionRedemption :: rest).
+Proof.
+  intros rngT mkrng shuffle hbo Hs ops ops' h h' Hset Hh Hh' i j e e' Hi Hj Eidx Eseed.
+  rewrite !run_history_is_map. cbn [snd].
+  exists (answer_of rngT mkrng shuffle hbo ops e).
+  assert (Pe : forall l, Permutation (e_iter e l) l).
+  { intro l. apply Hh. eapply nth_error_In; exact Hi. }
+  assert (Pe' : forall l, Permutation (e_iter e' l) l).
+  { intro l. apply Hh'. eapply nth_error_In; exact Hj. }
+  split; [|split; [|split]].
+  - apply map_nth_error. exact Hi.
+  - rewrite (answer_of_same_set rngT mkrng shuffle hbo ops ops' e e' Pe Pe' Hset Eidx Eseed).
+    apply map_nth_error. exact Hj.
+  - intro Hne. unfold answer_of. cbn [fst].
+    destruct (leader_in_operators rngT shuffle (e_iter e) Hs Pe
+                (mkrng (seed_int64 (e_seed e))) ops Hne) as [o [E Hin]].
+    exists o. split; [exact E|]. split; [exact Hin|apply Hset, Hin].
+  - intro Hidx. unfold answer_of. cbn [snd].
+    destruct (checklist_shape (e_idx e) (hbo (mkrng (seed_int64 (e_seed e)))) Hidx)
+      as [rest [Ec _]].
+    exists rest. exact Ec.
+Qed.
+
+(* in particular one member asked again, at any later point of its history, repeats itself *)
+Corollary same_member_repeats_itself :
+  forall (rngT : Type) (mkrng : Z -> rngT) (shuffle : rngT -> list N -> list N)
+         (heartbeat_of : rngT -> bool) (ops : list N) (h : list hentry) i j e,
+    nth_error h i = Some e -> nth_error h j = Some e ->
+    nth_error (snd (run_history rngT mkrng shuffle heartbeat_of ops h)) i =
+    nth_error (snd (run_history rngT mkrng shuffle heartbeat_of ops h)) j.
+Proof.
+  intros rngT mkrng shuffle hbo ops h i j e Hi Hj. rewrite run_history_is_map. cbn [snd].
+  rewrite (map_nth_error _ _ _ Hi), (map_nth_error _ _ _ Hj). reflexivity.
+Qed.
+
+(* the concrete executor *)
+Lemma concrete_run_is_map (pn pl : Z) (ops : list N) (h : list (Z * list N)) :
+  concrete_run pn pl ops h = (ops, map (concrete_answer pn pl ops) h).
+Proof.
+  unfold concrete_run. rewrite run_history_is_map, map_map. reflexivity.
+Qed.
+
+Lemma concrete_answer_eq (pn pl : Z) (ops : list N) (w : Z * list N) :
+  concrete_answer pn pl ops w =
+    (Concrete.get_leader (snd w) ops, Concrete.get_actions_checklist (fst w) (snd w) pn pl).
+Proof.
+  unfold concrete_answer, answer_of, concrete_entry, Concrete.get_leader,
+    Concrete.get_actions_checklist, Concrete.heartbeat, concrete_heartbeat_of.
+  cbn [e_idx e_seed e_iter]. reflexivity.
+Qed.
+
+Theorem concrete_history_has_no_memory :
+  forall pn pl ops h,
+    concrete_run pn pl ops h =
+      (ops, map (fun w => (Concrete.get_leader (snd w) ops,
+                           Concrete.get_actions_checklist (fst w) (snd w) pn pl)) h).
+Proof.
+  intros pn pl ops h. rewrite concrete_run_is_map. apply (f_equal (pair ops)). apply map_ext.
+  intro w. apply concrete_answer_eq.
+Qed.
+
+(* ---------- the executable history property ---------- *)
+Lemma listN_eqb_eq (a : list N) : forall b, listN_eqb a b = true <-> a = b.
+Proof.
+  induction a as [|x a IH]; intros [|y b]; cbn [listN_eqb]; try (split; [discriminate|discriminate]).
+  - split; reflexivity.
+  - rewrite andb_true_iff, N.eqb_eq, IH. split; [intros [-> ->]; reflexivity|intro E; inversion E; auto].
+Qed.
+
+Definition hspec_prop (h : hcase) : Prop :=
+  (forall m k, In m (h_members h) -> In k (m_calls m) -> m_ops m <> [] ->
+     exists o, k_leader k = Leader o /\ In o (m_ops m)) /\
+  (forall m m' k k', In m (h_members h) -> In m' (h_members h) ->
+     In k (m_calls m) -> In k' (m_calls m') ->
+     k_block k = k_block k' -> k_seed_exp k = k_seed_exp k' ->
+     k_leader k = k_leader k' /\ k_checklist k = k_checklist k') /\
+  (forall m k, In m (h_members h) -> In k (m_calls m) -> k_index k <> 0 ->
+     checklist_shape_prop (k_index k) (draw_lt (k_draw k) (h_p_num h) (h_p_log h))
+       (k_checklist k)).
+
+Lemma in_all_calls (h : hcase) (m : hmember) (k : hcall) :
+  In m (h_members h) -> In k (m_calls m) -> In k (all_calls h).
+Proof. intros Hm Hk. unfold all_calls. apply in_flat_map. exists m. split; assumption. Qed.
+
+Theorem hspec_ok_sound : forall h, hspec_ok h = true -> hspec_prop h.
+Proof.
+  intros h H. unfold hspec_ok in H. repeat rewrite andb_true_iff in H.
+  destruct H as [[Hl Hp] Hc]. rewrite forallb_forall in Hl, Hp, Hc.
+  split; [|split].
+  - intros m k Hm Hk Hne. specialize (Hl m Hm). rewrite forallb_forall in Hl.
+    specialize (Hl k Hk). unfold hleader_ok in Hl.
+    destruct (m_ops m) as [|a t] eqn:Eo; [contradiction|].
+    destruct (k_leader k) as [o|]; [|discriminate].
+    exists o. split; [reflexivity|]. apply memN_In. exact Hl.
+  - intros m m' k k' Hm Hm' Hk Hk' Eb Es.
+    specialize (Hp k (in_all_calls h m k Hm Hk)). rewrite forallb_forall in Hp.
+    specialize (Hp k' (in_all_calls h m' k' Hm' Hk')).
+    assert (Ek : key_eqb k k' = true).
+    { unfold key_eqb. rewrite Eb, Es, Z.eqb_refl. apply listN_eqb_eq. reflexivity. }
+    rewrite Ek in Hp. cbn [implb] in Hp. unfold same_answer in Hp.
+    apply andb_true_iff in Hp. destruct Hp as [A B].
+    split; [apply lres_eqb_eq, A|apply listZ_eqb_eq, B].
+  - intros m k Hm Hk Hidx. apply checklist_ok_sound; [exact Hidx|].
+    apply Hc. exact (in_all_calls h m k Hm Hk).
+Qed.
+
+Lemma combine_map_self {A B} (f : A -> B) (l : list A) :
+  combine l (map f l) = map (fun x => (x, f x)) l.
+Proof. induction l as [|a t IH]; cbn [combine map]; [reflexivity|rewrite IH; reflexivity]. Qed.
+
+(* a call of a model member, explicitly *)
+Definition model_call_of (pn pl : Z) (ops : list N) (w : Z * list N) : hcall :=
+  model_hcall pn pl (w, concrete_answer pn pl ops (window_index (fst w), snd w)).
+
+Lemma model_hmember_eq (pn pl : Z) (ops : list N) (ws : list (Z * list N)) :
+  model_hmember pn pl (ops, ws) =
+    {| m_ops := ops; m_ops_after := ops; m_calls := map (model_call_of pn pl ops) ws |}.
+Proof.
+  unfold model_hmember. rewrite concrete_run_is_map, map_map.
+  rewrite (combine_map_self
+             (fun w : Z * list N => concrete_answer pn pl ops (window_index (fst w), snd w)) ws).
+  rewrite map_map. reflexivity.
+Qed.
+
+(* every history case produced by the model -- members over the same operator set, each with
+   its own history -- passes the executable property *)
+Theorem model_histories_pass_spec :
+  forall p_num p_log (ms : list (list N * list (Z * list N))),
+    (forall m m', In m ms -> In m' ms -> forall x, In x (fst m) <-> In x (fst m')) ->
+    hspec_ok (model_hcase p_num p_log ms) = true.
+Proof.
+  intros pn pl ms Hset.
+  assert (Hcalls : forall k, In k (all_calls (model_hcase pn pl ms)) ->
+            exists ops ws w, In (ops, ws) ms /\ In w ws /\ k = model_call_of pn pl ops w).
+  { intros k Hk. unfold all_calls, model_hcase in Hk. cbn [h_members] in Hk.
+    apply in_flat_map in Hk. destruct Hk as [m [Hm Hk]].
+    apply in_map_iff in Hm. destruct Hm as [[ops ws] [<- Hin]].
+    rewrite model_hmember_eq in Hk. cbn [m_calls] in Hk.
+    apply in_map_iff in Hk. destruct Hk as [w [<- Hw]].
+    exists ops, ws, w. repeat split; assumption. }
+  unfold hspec_ok. repeat rewrite andb_true_iff. repeat split.
+  - unfold model_hcase. cbn [h_members]. rewrite forallb_map. apply forallb_forall.
+    intros [ops ws] Hin. rewrite model_hmember_eq. cbn [m_ops m_calls].
+    rewrite forallb_map. apply forallb_forall. intros [b s] Hw.
+    unfold hleader_ok, model_call_of, model_hcall. rewrite concrete_answer_eq.
+    cbn [k_leader fst snd]. destruct ops as [|a t] eqn:E0; [reflexivity|].
+    unfold Concrete.get_leader.
+    destruct (leader_in_operators rng Concrete.shuffle Concrete.iter concrete_shuffle_perm
+                concrete_iter_perm (rng_seed (seed_int64 s)) (a :: t)) as [o [E Hin']];
+      [discriminate|].
+    rewrite E. apply memN_In. exact Hin'.
+  - apply forallb_forall. intros k Hk. apply forallb_forall. intros k' Hk'.
+    destruct (Hcalls k Hk) as [ops [ws [[b s] [Hm [Hw ->]]]]].
+    destruct (Hcalls k' Hk') as [ops' [ws' [[b' s'] [Hm' [Hw' ->]]]]].
+    destruct (key_eqb _ _) eqn:Ek; [|reflexivity]. cbn [implb].
+    unfold key_eqb, model_call_of, model_hcall in Ek. rewrite !concrete_answer_eq in Ek.
+    cbn [k_block k_seed_exp fst snd] in Ek. apply andb_true_iff in Ek. destruct Ek as [Eb Es].
+    apply Z.eqb_eq in Eb. apply listN_eqb_eq in Es. subst b' s'.
+    unfold same_answer, model_call_of, model_hcall. rewrite !concrete_answer_eq.
+    cbn [k_leader k_checklist fst snd]. apply andb_true_iff. split.
+    + apply lres_eqb_eq. unfold Concrete.get_leader.
+      apply leader_invariant_under_permutation_and_repetition;
+        [apply concrete_iter_perm|apply concrete_iter_perm|].
+      exact (Hset (ops, ws) (ops', ws') Hm Hm').
+    + apply listZ_eqb_eq. reflexivity.
+  - apply forallb_forall. intros k Hk.
+    destruct (Hcalls k Hk) as [ops [ws [[b s] [Hm [Hw ->]]]]].
+    unfold model_call_of, model_hcall. rewrite concrete_answer_eq.
+    cbn [k_index k_draw k_checklist h_p_num h_p_log model_hcase fst snd].
+    unfold Concrete.get_actions_checklist, Concrete.heartbeat. apply checklist_ok_model.
+Qed.
+
+(* the functions compute: a long-running member (three windows, the first one asked again at
+   the end) and a freshly started one with another view of operators {1,2,3} *)
+Example two_histories :
+  let s1 := [206; 244; 165; 13; 8; 128; 142; 9]%N in
+  let s2 := [1; 2; 3; 4; 5; 6; 7; 8]%N in
+  let s3 := [250; 0; 7; 99; 31; 200; 1; 17]%N in
+  snd (concrete_run 1 4 [3; 1; 2; 2; 1]%N [(4, s1); (5, s2); (6, s3); (4, s1)]) =
+    [ (Leader 2%N, [ActionRedemption; ActionDepositSweep; ActionMovedFundsSweep; ActionMovingFunds]);
+      (Concrete.get_leader s2 [1; 2; 3]%N, Concrete.get_actions_checklist 5 s2 1 4);
+      (Concrete.get_leader s3 [1; 2; 3]%N, Concrete.get_actions_checklist 6 s3 1 4);
+      (Leader 2%N, [ActionRedemption; ActionDepositSweep; ActionMovedFundsSweep; ActionMovingFunds]) ] /\
+  snd (concrete_run 1 4 [2; 3; 1]%N [(6, s3)]) =
+    [ (Concrete.get_leader s3 [1; 2; 3]%N, Concrete.get_actions_checklist 6 s3 1 4) ].
+Proof. vm_compute. repeat split. Qed.
